@@ -156,12 +156,17 @@ func C18(tier string) *core.Report {
 // C11 — the compiler accepts the supported subset and its output builds.
 func C11(tier string) *core.Report {
 	r := core.NewReport("C11", tier)
-	for _, fr := range runFamilies(r, CFFamilies(tier), tier) {
+	fams := append(CFFamilies(tier), importFamily(tier), etaFamily(tier), yfFamily(tier))
+	if tier == "thorough" {
+		fams = append(fams, VarFamilies(tier)...)
+		fams = append(fams, consFamily(tier), rangeFamily("RANGE", tier, false))
+	}
+	for _, fr := range runFamilies(r, fams, tier) {
 		for _, f := range fr.CompileFailures() {
 			r.Fail(f)
 		}
 	}
-	r.Set("rule", "every type-correct program of the families is compiled by the real rewriter.Compile (batch, non-test binary, 10 min watchdog) and the generated package is built with go build without the co tag; a panic is isolated to its program through the verif hook; exploration counters are those of the shared run")
+	r.Set("rule", "families: control flow (CF), import/declaration/element-type configurations (IMPORT, one file per program), eta-shaped closures (ETA), delegation (YF); thorough adds VAR, CONS, RANGE; every type-correct program of the families is compiled by the real rewriter.Compile (batch, non-test binary, 10 min watchdog) and the generated package is built with go build without the co tag; a panic is isolated to its program through the verif hook; exploration counters are those of the shared run")
 	r.Assume("programs of the families are within the documented supported subset (README control-flow table)")
 	return r
 }
